@@ -108,7 +108,7 @@ func genC16(r *h.Rand) c16cfg {
 		ncmd := r.Range(1, 3)
 		var cmds []string
 		for k := 0; k < ncmd; k++ {
-			c := tok(fmt.Sprintf("T:%s:%d:$VAR:$E1:$CXE:{{.TV}}", name, k))
+			c := tok(fmt.Sprintf("T:%s:%d:$VAR:$E1:$CXE:{{.TV}}:[$E3]", name, k))
 			if r.Chance(15) {
 				c += "; exit 3"
 			}
@@ -117,7 +117,12 @@ func genC16(r *h.Rand) c16cfg {
 		t.Set("command", strOrList(r, cmds...))
 		t.Set("variables", gen.OM{{K: "TV", V: weakScalar(r)}})
 		if r.Chance(60) {
-			t.Set("env", gen.OM{{K: "E1", V: weakScalar(r)}, {K: "E2", V: "two words"}})
+			e := gen.OM{{K: "E1", V: weakScalar(r)}, {K: "E2", V: "two words"}}
+			if r.Chance(40) {
+				// strings that end in (or contain) line breaks are data too
+				e.Set("E3", []string{"ends with a break\n", "two\nlines", "\nleading", "trailing blank \n\n"}[r.Intn(4)])
+			}
+			t.Set("env", e)
 		}
 		if r.Chance(30) {
 			t.Set("before", strOrList(r, tok("tb:"+name)))
@@ -282,6 +287,21 @@ func genC16(r *h.Rand) c16cfg {
 			it.Set("env_file", "vars.env") // relative: exists both next to the importer and next to the imported file
 		}
 		cfg.imported = gen.OM{{K: "tasks", V: gen.OM{{K: "imported-task", V: it}}}}
+		if np > 0 && r.Chance(50) {
+			// the imported file extends a pipeline the importing file defines (lists of both files are joined)
+			cfg.imported.Set("pipelines", gen.OM{{K: "p0", V: []interface{}{gen.OM{{K: "name", V: "from-import"}, {K: "task", V: "imported-task"}}}}})
+			if mayFailPipe["p0"] {
+				for _, pn := range cfg.pipelines {
+					cfg.racy[pn] = true // conservative: the added stage is unordered with a stage that may fail
+				}
+			}
+		}
+		if r.Chance(40) {
+			// ... and adds variations to a task of the importing file
+			ttasks := cfg.imported[0].V.(gen.OM)
+			ttasks.Set("t0", gen.OM{{K: "variations", V: []interface{}{gen.OM{{K: "VAR", V: "from-import"}}}}})
+			cfg.imported[0].V = ttasks
+		}
 		cfg.importSub = r.Bool()
 		cfg.tasks = append(cfg.tasks, "imported-task")
 		top.Set("import", []interface{}{"IMPORTFILE"})
